@@ -732,6 +732,50 @@ def check_model(case, ctx):
                 if got_ids != want_ids:
                     ctx.fail('C07.model/cti:phase-%s' % field, '%s: file %r model %r' % (ph.name, got, sorted(want_ids)))
                     break
+    # gas and bulk phases
+    cg = by.get('ideal_gas', [])
+    gas_ph = [p for p in M['phases'] if type(p).__name__ == 'IdealGas']
+    if [k.get('name') for _, k in cg] != [p.name for p in gas_ph]:
+        ctx.fail('C07.model/cti:gas-phase-list', repr([k.get('name') for _, k in cg]))
+    else:
+        for ph, (_, k) in zip(gas_ph, cg):
+            if k.get('species', '').split() != list(ph.species_names) or sorted(k.get('elements', '').split()) != sorted(ph.elements):
+                ctx.fail('C07.model/cti:phase-members', '%s: %r / %r' % (ph.name, k.get('species'), k.get('elements')))
+    cs = by.get('stoichiometric_solid', [])
+    sol_ph = [p for p in M['phases'] if type(p).__name__ == 'StoichSolid']
+    if [k.get('name') for _, k in cs] != [p.name for p in sol_ph]:
+        ctx.fail('C07.model/cti:bulk-phase-list', repr([k.get('name') for _, k in cs]))
+    else:
+        for ph, (_, k) in zip(sol_ph, cs):
+            want = ph.density * c.convert_unit(initial='g', final=units.mass) / c.convert_unit(initial='cm3', final=units.length + '3')
+            if k.get('species', '').split() != list(ph.species_names) or abs(k.get('density', 0) - want) > 1e-9 * want:
+                ctx.fail('C07.model/cti:bulk-phase', '%s: %r density %r vs %r' % (ph.name, k.get('species'), k.get('density'), want))
+    # lateral interactions and BEPs as CTI directives
+    cl = by.get('lateral_interaction', [])
+    if len(cl) != len(M['interactions']):
+        ctx.fail('C07.model/cti:interaction-count', '%d vs %d' % (len(cl), len(M['interactions'])))
+    else:
+        for it, (a, k) in zip(M['interactions'], cl):
+            want = [c.convert_unit(s_, initial='kcal/mol', final='%s/%s' % (units.energy, units.quantity)) for s_ in it.slopes]
+            if a[0] != '%s %s' % (it.name_i, it.name_j) or list(k.get('coverage_thresholds', [])) != list(it.intervals) or \
+                    len(k.get('strengths', [])) != len(want) or \
+                    any(abs(g_ - w_) > 1e-9 * max(1, abs(w_)) for g_, w_ in zip(k.get('strengths', []), want)) or k.get('id') != it.name:
+                ctx.fail('C07.model/cti:interaction-parameters', '%r %r vs %r %r' % (a, k, it.slopes, it.name))
+                break
+    cb = by.get('bep', [])
+    if [k.get('id') for _, k in cb] != [b.name for b in used_beps]:
+        ctx.fail('C07.model/cti:bep-list', '%r vs %r' % ([k.get('id') for _, k in cb], [b.name for b in used_beps]))
+    else:
+        for b, (_, k) in zip(used_beps, cb):
+            want = c.convert_unit(b.intercept, 'kcal/mol', units.act_energy)
+            ok = k.get('slope') == b.slope and k.get('direction') == b.direction and abs(k.get('intercept', 1e99) - want) <= 1e-9 * max(1, abs(want))
+            for key, lst in (('cleavage_reactions', b.cleavage_reactions), ('synthesis_reactions', b.synthesis_reactions)):
+                got = k.get(key)
+                got_ids = decode_range(['"%s"' % g_ for g_ in got], 'list') if got not in (None, [], '[]') else set()
+                ok = ok and got_ids == {x.id for x in lst}
+            if not ok:
+                ctx.fail('C07.model/cti:bep-parameters', '%s: %r' % (b.name, k))
+                break
     n_motz = len(by.get('enable_motz_wise', [])) + len(by.get('disable_motz_wise', []))
     if M['reactions'] and (n_motz != 1 or bool(by.get('enable_motz_wise')) != case['motz']):
         ctx.fail('C07.model/cti:motz-wise', 'enable %d disable %d wanted %s' % (
